@@ -210,6 +210,10 @@ def make_red_case(rng, shape, op, axis, legal, dtype, pat, cls='Scalar', derivs=
             if key == 't' or rng.random() < 0.5:
                 c['derivs'][key] = {'denom': list(denom),
                                     'vals': gen_vals(rng, n * prod(item) * prod(denom), 'float', 'sum')}
+                if shape and rng.random() < 0.5:
+                    # the derivative is masked at elements of its own (not contained in the parent's mask): it is
+                    # reduced over the elements that are visible in both (seeded change C13-J)
+                    c['derivs'][key]['dmask'] = make_mask(rng, shape, rng.choice(['mix', 'mix', 'aT', 'slice']))
     return c
 
 
@@ -371,7 +375,7 @@ def build_obj(d, Pm):
     for key, dd in sorted(d.get('derivs', {}).items()):
         denom = tuple(dd['denom'])
         darr = np.array([decode(z, 'float') for z in dd['vals']], float).reshape(shape + item + denom)
-        dmask = build_mask(d['mask'], shape)
+        dmask = build_mask(dd['dmask'] if dd.get('dmask') is not None else d['mask'], shape)
         if shape + item + denom == ():
             darr = darr.item()
         obj.insert_deriv(key, cls(darr, dmask, drank=len(denom)))
@@ -629,12 +633,13 @@ def compare(impl, ref, op):
             return 'deriv'
         for k, rd in ref['derivs'].items():
             d = impl['derivs'][k]
-            if list(d['shape']) != list(ref['shape']) or list(d['mask']) != list(ref['mask']):
+            dmask = (ref.get('dmasks') or {}).get(k, ref['mask'])
+            if list(d['shape']) != list(ref['shape']) or list(d['mask']) != list(dmask):
                 return 'deriv'
             if len(d['comps']) != len(rd):
                 return 'deriv'
             for ci, cr in zip(d['comps'], rd):
-                for a, b, m in zip(ci, cr, ref['mask']):
+                for a, b, m in zip(ci, cr, dmask):
                     if not m and not close(a, b, tol):
                         return 'deriv'
     return None
@@ -737,6 +742,8 @@ def coq_case(c, obj, v2):
     when the case is outside the model (non-finite data in an arithmetic reduction)."""
     dtype = c['dtype']
     op = c['op']
+    if any(dd.get('dmask') is not None for dd in (c.get('derivs') or {}).values()):
+        return None         # derivatives with a mask of their own: direct oracle only (the model shares one mask)
     lo, hi = bounds(dtype)
     cols = [codes_of(v2[:, j], dtype) for j in range(v2.shape[1])]
     if any(col is None for col in cols):
@@ -824,8 +831,10 @@ def run_case(c, Pm):
                 ref['derivs'] = {}
                 for k, d in sorted(obj._derivs_.items()):
                     dv, dm = expanded(d)
+                    dm = [bool(a) or bool(b) for a, b in zip(dm, mflat)] if len(dm) == len(mflat) else dm
                     rd = ref_red(dict(c, cls='Scalar'), dv, dm)
                     ref['derivs'][k] = rd['comps']
+                    ref.setdefault('dmasks', {})[k] = rd['mask']
                 if ref['cls'] == 'builtin':
                     ref['derivs'] = None
             res['ref'] = ref
